@@ -70,7 +70,8 @@ def _param(draw):
 
 
 @st.composite
-def fn_spec(draw, arity=None, lo=0, hi=15):
+def fn_spec(draw, arity=None, lo=0, hi=15, fixed=None):
+    """fixed = (const, kind, decl): the declaration spelling is given, not drawn (one entry of the macro table)"""
     if arity is not None:
         lo = hi = arity
     # arity is drawn explicitly (uniform over lo..hi); a plain st.lists() would make long lists rare
@@ -80,11 +81,15 @@ def fn_spec(draw, arity=None, lo=0, hi=15):
     spec = {"params": params}
     spec["const"] = draw(st.booleans())
     kind = draw(st.sampled_from(["plain", "overload", "iface"]))
+    if fixed is not None:
+        spec["const"], kind = fixed[0], fixed[1]
     spec["kind"] = kind
     if kind == "iface":
         spec["decl"] = draw(st.sampled_from(["implement", "override"]))
     else:
         spec["decl"] = draw(st.sampled_from(["n", "auto"]))
+    if fixed is not None:
+        spec["decl"] = fixed[2]
     if kind == "overload":
         choices = ["const"]
         if n < 15:
@@ -128,7 +133,7 @@ def fn_spec(draw, arity=None, lo=0, hi=15):
 def tu_spec(draw, forced=(), lo=6, hi=10):
     """One translation unit: the functions with deterministically forced arities first, then free ones
     (lo..hi functions in total)."""
-    fns = [draw(fn_spec(arity=a)) for a in forced]
+    fns = [draw(fn_spec(arity=a[0], fixed=a[1:])) if isinstance(a, tuple) else draw(fn_spec(arity=a)) for a in forced]
     k = len(fns)
     fns += draw(st.lists(fn_spec(), min_size=max(0, lo - k), max_size=max(0, hi - k)))
     return fns
